@@ -1,7 +1,7 @@
 SPECIFICATION Spec
 CONSTANTS
-  MergeTiming = "lagging"
-  DoFeedback = "rerun"
+  MergeTiming = "eager"
+  DoFeedback = "none"
   TmpName = "fresh"
   Programs <- ProgramsSmall
 INVARIANTS T01
